@@ -19,6 +19,16 @@ package mta
 //@   modifies nothing
 //@   allocates
 //@   ensures result0 != nil && result0.c != nil && result1 != nil && result1.c != nil && result2 != nil && result3 != nil && result4 != nil && fresh(result4)
+// (C12) the share construction, at the level of ciphertext values: D = pmul(Enc_receiver(-beta; s), B^a, N^2) (the product mod N^2) and
+// F = Enc_sender(-beta; r), both with the SAME sampled -beta (result4); the peer's ciphertext B is left untouched.
+// With B = Enc(b; rho) lemma c12_homomorphic (mta_share) turns D into Enc(a*b - beta; rho^a * s): the receiver's
+// decryption alpha and the sender's beta add up to a*b.
+//@   use sq
+//@   let NN = natval(receiver.nNat) * natval(receiver.nNat)
+//@   ensures[C12] natval(result0.c) == pmul((modexp(natval(receiver.nPlusOne), natval(result4), NN) * modexp(natval(result2), natval(receiver.nNat), NN)) % NN, modexp(old(natval(receiverEncryptedShare.c)), natval(senderSecretShare), NN), NN)
+//@   let MM = natval(sender.PublicKey.nNat) * natval(sender.PublicKey.nNat)
+//@   ensures[C12] natval(result1.c) == (modexp(natval(sender.PublicKey.nPlusOne), natval(result4), MM) * modexp(natval(result3), natval(sender.PublicKey.nNat), MM)) % MM
+//@   ensures[C12] natval(receiverEncryptedShare.c) == old(natval(receiverEncryptedShare.c))
 //@ func ProveAffG
 //@   nopanic[C05,C12]
 //@   use bits
